@@ -96,6 +96,19 @@ def render_structs(k, it: Item, meta, cfg, strum_path="strum"):
             }
             out.join(";")
         ''' % {"sp": strum_path, "ty": ty, "ity": iter_ty, "n": sum(1 for v in it.variants if not v.has("disabled"))}
+        arms["ctor"] = '''
+            use %(sp)s::IntoEnumIterator;
+            // a payload whose Default PANICS (hp.rs `Boom`): the values in front of that variant are still produced, one by one
+            let mut i = <%(ty)s as IntoEnumIterator>::iter();
+            let mut out: Vec<String> = Vec::new();
+            for _ in 0..64 {
+                let r = catch_mut(|| match args[0] { "front" => item_obs(i.next(), vidx), _ => item_obs(i.next_back(), vidx) });
+                let stop = r == "panic" || r == "none";
+                out.push(r);
+                if stop { break; }
+            }
+            out.join(";")
+        ''' % {"sp": strum_path, "ty": ty}
         arms["adapt"] = '''
             use %(sp)s::IntoEnumIterator;
             let ci = args[0].find(':').unwrap_or(args[0].len());
@@ -247,33 +260,49 @@ def render_structs(k, it: Item, meta, cfg, strum_path="strum"):
             format!("[{}]", parts.join(";"))
         '''.replace("ABSENT_CALL", absent_call) % ", ".join(parts)
     if "EnumMessage" in derives:
+        ns = bool(getattr(it, "namesakes", False))
+        T = "<%s as %s::EnumMessage>" % (ty, strum_path)
         arms["msg"] = '''
-            use %s::EnumMessage;
             let j: usize = args[0].parse().unwrap();
             let v = val(j);
             let o = |x: Option<&'static str>| match x { Some(s) => format!("some:{}", xs(s)), None => "none".to_string() };
-            let ser: Vec<String> = v.get_serializations().iter().map(|s| xs(s)).collect();
-            let direct = format!("m={}|d={}|doc={}|ser=[{}]", o(v.get_message()), o(v.get_detailed_message()), o(v.get_documentation()), ser.join(";"));
-            // the same getters through other receivers (method resolution may pick another impl): &&E, Box<E>, &mut E
+            // path calls on the TRAIT (an inherent method of the same name on the user's enum must not matter)
+            let ser: Vec<String> = %(T)s::get_serializations(&v).iter().map(|s| xs(s)).collect();
+            let direct = format!("m={}|d={}|doc={}|ser=[{}]", o(%(T)s::get_message(&v)), o(%(T)s::get_detailed_message(&v)), o(%(T)s::get_documentation(&v)), ser.join(";"));
+            %(recv)s
+        ''' % {"T": T, "recv": "direct" if ns else '''
+            // the same getters through other receivers (method resolution may pick another impl): &&E, Box<E>
+            use %s::EnumMessage;
             let rr = &&v;
             let ser2: Vec<String> = rr.get_serializations().iter().map(|s| xs(s)).collect();
             let via_ref = format!("m={}|d={}|doc={}|ser=[{}]", o(rr.get_message()), o(rr.get_detailed_message()), o(rr.get_documentation()), ser2.join(";"));
             let bx = Box::new(val(j));
             let ser3: Vec<String> = bx.get_serializations().iter().map(|s| xs(s)).collect();
             let via_box = format!("m={}|d={}|doc={}|ser=[{}]", o(bx.get_message()), o(bx.get_detailed_message()), o(bx.get_documentation()), ser3.join(";"));
-            if via_ref != direct || via_box != direct { format!("RECEIVER-MISMATCH direct={} via&&={} viaBox={}", direct, via_ref, via_box) } else { direct }
-        ''' % strum_path
+            if via_ref != direct || via_box != direct { format!("RECEIVER-MISMATCH direct={} via&&={} viaBox={}", direct, via_ref, via_box) } else { direct }''' % strum_path}
+        if ns:
+            # the user's OWN inherent methods with the names of the trait's methods: generated code that calls `self.get_message()` picks these
+            src.append('''impl %s {
+    pub fn get_message(&self) -> Option<&'static str> { Some("(inherent)") }
+    pub fn get_detailed_message(&self) -> Option<&'static str> { Some("(inherent detail)") }
+    pub fn get_documentation(&self) -> Option<&'static str> { Some("(inherent doc)") }
+    pub fn get_serializations(&self) -> &'static [&'static str] { &["(inherent)"] }
+}''' % ty)
     if "EnumProperty" in derives:
+        ns = bool(getattr(it, "namesakes", False))
+        T = "<%s as %s::EnumProperty>" % (ty, strum_path)
         arms["prop"] = '''
-            use %s::EnumProperty;
             let j: usize = args[0].parse().unwrap();
             let key = unhex_str(args[2]);
             let v = val(j);
             let fs = |x: Option<&'static str>| match x { Some(s) => format!("some:{}", xs(s)), None => "none".to_string() };
             let fi = |x: Option<i64>| match x { Some(n) => format!("some:{}", n), None => "none".to_string() };
             let fb = |x: Option<bool>| match x { Some(b) => format!("some:{}", if b { 1 } else { 0 }), None => "none".to_string() };
-            let direct = format!("s={}|i={}|b={}", fs(v.get_str(&key)), fi(v.get_int(&key)), fb(v.get_bool(&key)));
+            let direct = format!("s={}|i={}|b={}", fs(%(T)s::get_str(&v, &key)), fi(%(T)s::get_int(&v, &key)), fb(%(T)s::get_bool(&v, &key)));
+            %(recv)s
+        ''' % {"T": T, "recv": "direct" if ns else '''
             // the same getters through other receivers (method resolution may pick another impl): &&E, Box<E>, &mut E
+            use %s::EnumProperty;
             let rr = &&v;
             let via_ref = format!("s={}|i={}|b={}", fs(rr.get_str(&key)), fi(rr.get_int(&key)), fb(rr.get_bool(&key)));
             let mut w = val(j);
@@ -281,8 +310,13 @@ def render_structs(k, it: Item, meta, cfg, strum_path="strum"):
             let via_mut = format!("s={}|i={}|b={}", fs(rm.get_str(&key)), fi(rm.get_int(&key)), fb(rm.get_bool(&key)));
             let bx = Box::new(val(j));
             let via_box = format!("s={}|i={}|b={}", fs(bx.get_str(&key)), fi(bx.get_int(&key)), fb(bx.get_bool(&key)));
-            if via_ref != direct || via_mut != direct || via_box != direct { format!("RECEIVER-MISMATCH direct={} via&&={} via&mut={} viaBox={}", direct, via_ref, via_mut, via_box) } else { direct }
-        ''' % strum_path
+            if via_ref != direct || via_mut != direct || via_box != direct { format!("RECEIVER-MISMATCH direct={} via&&={} via&mut={} viaBox={}", direct, via_ref, via_mut, via_box) } else { direct }''' % strum_path}
+        if ns:
+            src.append('''impl %s {
+    pub fn get_str(&self, _k: &str) -> Option<&'static str> { Some("(inherent)") }
+    pub fn get_int(&self, _k: &str) -> Option<i64> { Some(-1) }
+    pub fn get_bool(&self, _k: &str) -> Option<bool> { Some(true) }
+}''' % ty)
     if meta.get("extra_src"):
         src.append(meta["extra_src"])
     for kk, body in (meta.get("extra_arms") or {}).items():
